@@ -458,16 +458,28 @@ class Engine:
     names = list(self.inputs)
     if not names:
       return None
-    for _ in range(tries):
+    for t in range(tries):
       sub = []
       base = {}
+      # correlated regimes: mixed signs, all negative, all positive, equal
+      regime = ('mixed', 'neg', 'pos', 'mixed', 'same', 'neg', 'tiny')[t % 7]
+      same = rng.uniform(-2, 2)
       for n in names:
         v = self.inputs[n]
         srt = v.sort()
         if z3.is_fp_sort(srt) and srt.ebits() == 8:
           mag = rng.choice([1e-3, 0.1, 1.0, 1.0, 10.0, 300.0])
-          x = rng.choice([0.0, rng.uniform(-1, 1), rng.uniform(-1, 1),
-                          rng.uniform(0, 1), rng.uniform(-1, 0)]) * mag
+          if regime == 'neg':
+            x = rng.uniform(-1, -0.01) * mag
+          elif regime == 'pos':
+            x = rng.uniform(0.01, 1) * mag
+          elif regime == 'same':
+            x = same
+          elif regime == 'tiny':
+            x = rng.uniform(-1, 1) * 1e-6
+          else:
+            x = rng.choice([0.0, rng.uniform(-1, 1), rng.uniform(-1, 1),
+                            rng.uniform(0, 1), rng.uniform(-1, 0)]) * mag
           base[n] = x
         elif z3.is_bv_sort(srt):
           sub.append((v, z3.BitVecVal(rng.getrandbits(srt.size()), srt.size())))
